@@ -67,3 +67,16 @@ func SetFaults(budget int)
 // IntRange is a symbolic int in [lo,hi] encoded as a mathematical integer
 // (integer-encoding mode: every arithmetic result is side-conditioned to fit int64).
 func IntRange(name string, lo, hi int) int
+
+// LegacyRecord returns bytes standing for a legacy (gob-encoded) record with
+// nfields int64 fields, together with the field values.
+func LegacyRecord(tag string, nfields int) ([]byte, []int64)
+
+// DecimalInt64 is the decimal rendering of a symbolic int64.
+func DecimalInt64(name string) string
+
+// ParseDecimal recovers the number from a decimal string (ends the path when it is not a number).
+func ParseDecimal(s string) int64
+
+// Settle lets background goroutines of the real code finish (native: a short sleep; symbolic: nothing).
+func Settle()
